@@ -60,10 +60,11 @@ class SRat(object):
 
 class SEnum(object):
     """symbolic member of a concrete Enum class: index into list(cls)"""
-    __slots__ = ('cls', 'idx')
+    __slots__ = ('cls', 'idx', 'code_hint')
 
-    def __init__(self, cls, idx):
+    def __init__(self, cls, idx, code_hint=None):
         self.cls, self.idx = cls, idx
+        self.code_hint = code_hint        # term known to equal value.code of the member (lemma coded-abstraction)
 
     def __repr__(self):
         return 'SEnum(%s,%s)' % (self.cls.__name__, self.idx)
@@ -71,10 +72,10 @@ class SEnum(object):
 
 class SEnumValue(object):
     """.value of a symbolic member of a CryptoData enum (an attrs params object chosen by idx)"""
-    __slots__ = ('cls', 'idx')
+    __slots__ = ('cls', 'idx', 'code_hint')
 
-    def __init__(self, cls, idx):
-        self.cls, self.idx = cls, idx
+    def __init__(self, cls, idx, code_hint=None):
+        self.cls, self.idx, self.code_hint = cls, idx, code_hint
 
 
 class SObj(object):
